@@ -83,13 +83,14 @@ type FeedResult struct {
 	CachedCut int // bytes held back by the parser after the first segment (-1: none)
 	Wire      int // bytes written to the connection
 	// content oracle (see checkRetained / reported below)
-	Reads        int  // Parse calls made
-	ReplaceReads int  // Parse calls that entered with a cache, consumed something and left a tail again
-	TailChecks   int  // comparisons of the retained tail with the input
-	TailDiffs    int  // retained tail differs from the input in something that is not poison (not an ownership matter)
-	Reported     int  // reported strings / byte slices inspected
-	StaleSeen    int  // reported or retained data containing the stale sentinel (Stale policy; counted, not judged)
-	ContentOff   bool // the input itself contains the poison byte: content oracle off
+	Reads         int  // Parse calls made
+	ReplaceReads  int  // Parse calls that entered with a cache, consumed something and left a tail again
+	TailChecks    int  // comparisons of the retained tail with the input
+	TailDiffs     int  // retained tail differs from the input in something that is not poison (not an ownership matter)
+	Reported      int  // reported strings / byte slices inspected
+	StaleSeen     int  // reported or retained data containing the stale sentinel (Stale policy; counted, not judged)
+	DanglingCache int  // Parse calls after which an open parser keeps a pointer to a released cache buffer (counted, not judged)
+	ContentOff    bool // the input itself contains the poison byte: content oracle off
 }
 
 // scribbleByte is what the harness overwrites its read buffer with after every Parse call (the
@@ -101,9 +102,9 @@ type StubPC struct {
 	t          *track.T
 	contentOff bool
 	poison     func(data []byte, where, detail string)
-	conn   net.Conn
-	Got    []byte
-	Closed int
+	conn       net.Conn
+	Got        []byte
+	Closed     int
 }
 
 func (s *StubPC) UnderlayerConn() net.Conn { return s.conn }
@@ -248,7 +249,11 @@ func (e *Env) RunFeeds(c FeedCase, opt RunOpt) *FeedResult {
 		if out.ContentOff || parser.VerifParserClosed() {
 			return // a closed parser keeps its released cache pointer and never looks at it again
 		}
-		if cached := parser.VerifCached(); len(cached) > 0 && len(cached) <= fed {
+		if h := parser.VerifCachedHandle(); h != nil && !t.IsLive(h) {
+			// a pointer to a released buffer that is kept but (so far) not used is not a violation; the
+			// next read would be (append-after-free)
+			out.DanglingCache++
+		} else if cached := parser.VerifCached(); len(cached) > 0 && len(cached) <= fed {
 			out.TailChecks++
 			want := c.Stream[fed-len(cached) : fed]
 			if !bytes.Equal(cached, want) {
